@@ -384,7 +384,7 @@ func (c *nonnegCtx) paramNonneg(par *ssa.Parameter, min int64) (bool, string) {
 
 // e10Capacity: every make(chan T, n) with non-constant n has n >= 0 (n >= 1 for the
 // channels listed in needOne: package-rel + "." + field the channel is stored to).
-func e10Capacity(p *Prog, r *Report, rule string, needOne map[string]string) {
+func e10Capacity(p *Prog, r *Report, rule string, needOne map[string]string, only ...func(dest string) bool) {
 	n := 0
 	per := map[string]int{}
 	for _, fn := range p.Funcs {
@@ -403,6 +403,9 @@ func e10Capacity(p *Prog, r *Report, rule string, needOne map[string]string) {
 						}
 					}
 				}
+			}
+			if len(only) > 0 && !only[0](dest) {
+				return
 			}
 			min := int64(0)
 			why1 := ""
